@@ -1,7 +1,9 @@
 """C11 Lines are assigned to the regions they lie in, clipped, with unique ids."""
 import configparser
+from shapely.validation import make_valid
 import contextlib
 import io
+import math
 import itertools
 
 import numpy as np
@@ -21,7 +23,7 @@ ASSUMPTIONS = ['for invalid (self-touching) region polygons the code clips with 
                'regions handed to the helper have unique ids']
 N = {'quick': 2000, 'thorough': 60000}
 CLASSES = ['rect', 'concave', 'bowtie', 'nested', 'overlapping', 'mixed', 'mixed', 'edge_touching', 'extractor', 'simple_extractor']
-REQUIRED = ['helper_calls', 'pairs_checked', 'placed_lines', 'inside_lines_placed_unchanged', 'not_touching_pairs', 'multi_entry_lines', 'invalid_region_pairs',
+REQUIRED = ['suffixed_passes', 'bent_lines_placed', 'pocket_lines_checked', 'helper_calls', 'pairs_checked', 'placed_lines', 'inside_lines_placed_unchanged', 'not_touching_pairs', 'multi_entry_lines', 'invalid_region_pairs',
             'extractor_pages', 'multi_orientation_line_only_pages', 'simple_extractor_pages', 'simple_extractor_concave_pages']
 SHARDS = {'quick': 8, 'thorough': 16}
 
@@ -120,7 +122,40 @@ def gen(rng, i, ctx):
         ts = np.linspace(0, 1, k)
         b = np.stack([x0 + ts * L * np.cos(ang), y0 + ts * L * np.sin(ang) + (rng.uniform(-2, 2, k) if k > 2 else 0)], 1)
         lines.append({'baseline': b.tolist(), 'heights': [float(rng.uniform(5, 30)), float(rng.uniform(2, 10))]})
-    return {'cls': cls, 'regions': regs, 'lines': lines}
+    # drawn last so that earlier rounds' cases stay the same
+    for _ in range(int(rng.integers(0, 3))):
+        r = np.array(regs[int(rng.integers(0, len(regs)))])
+        xa, ya, xb, yb = r[:, 0].min(), r[:, 1].min(), r[:, 0].max(), r[:, 1].max()
+        if rng.random() < 0.5:
+            # a baseline that bends back: both end points lie diagonally off a corner of the region's bounding box, the middle runs through the region
+            sx, sy = [(1, 1), (-1, 1), (1, -1), (-1, -1)][int(rng.integers(0, 4))]
+            cx, cy = (xb if sx > 0 else xa), (yb if sy > 0 else ya)
+            d0, d1, dip = float(rng.uniform(5, 40)), float(rng.uniform(45, 90)), float(rng.uniform(20, 80))
+            p0, p2 = [cx + sx * d0, cy + sy * d1], [cx + sx * d1, cy + sy * d0]
+            mid = [cx - sx * dip, cy - sy * dip]
+            k = int(rng.integers(0, 3))
+            if rng.random() < 0.6:
+                # the same as a smooth arc (text around a seal): nearly a full circle around a point just inside the corner
+                a, R, dl = float(rng.uniform(5, 15)), float(rng.uniform(50, 90)), math.radians(float(rng.uniform(10, 25)))
+                diag = math.atan2(sy, sx)
+                th = np.linspace(diag + dl, diag - dl + 2 * math.pi, int(rng.integers(8, 17)))
+                lines.append({'baseline': np.stack([cx - sx * a + R * np.cos(th), cy - sy * a + R * np.sin(th)], 1).tolist(),
+                              'heights': [float(rng.uniform(3, 8)), float(rng.uniform(1, 4))], 'kind': 'bent'})
+                continue
+            pts = [p0] + [[p0[0] + (mid[0] - p0[0]) * t, p0[1] + (mid[1] - p0[1]) * t] for t in np.linspace(0, 1, k + 2)[1:-1]] + [mid] + \
+                  [[mid[0] + (p2[0] - mid[0]) * t, mid[1] + (p2[1] - mid[1]) * t] for t in np.linspace(0, 1, k + 2)[1:-1]] + [p2]
+            lines.append({'baseline': pts, 'heights': [float(rng.uniform(5, 15)), float(rng.uniform(2, 6))], 'kind': 'bent'})
+        else:
+            # a short line in the pocket between a self-touching outline and its convex hull (or simply near the top edge for other shapes)
+            w_, h_ = xb - xa, yb - ya
+            L = float(rng.uniform(5, max(6.0, 0.3 * w_)))
+            depth = float(rng.uniform(3, 0.12 * h_ + 3))
+            top = rng.random() < 0.5
+            y = float(ya + depth) if top else float(yb - depth)
+            x0 = float((xa + xb) / 2 - L / 2)
+            lines.append({'baseline': [[x0, y], [x0 + L, y]], 'heights': [float(min(depth * 0.6, 8.0)), 1.0], 'kind': 'pocket'})
+    names = [['r%d' % k for k in range(len(regs))], ['r000', 'r000_1', 'r001', 'r001_1', 'r000_3'][:len(regs)], ['r000_1', 'r000', 'r000_3', 'r001', 'r001_3'][:len(regs)]][int(rng.integers(0, 3))]
+    return {'cls': cls, 'regions': regs, 'lines': lines, 'region_ids': names}
 
 
 def describe(case):
@@ -134,7 +169,8 @@ def check(case, mon, ctx):
         return check_simple(case, mon, ctx)
     import shapely.geometry as sg
     L, Hh = ctx.L, ctx.H
-    regs = [L.RegionLayout('r%d' % k, np.array(p, dtype=np.float64)) for k, p in enumerate(case['regions'])]
+    names = case.get('region_ids') or ['r%d' % k for k in range(len(case['regions']))]
+    regs = [L.RegionLayout(names[k], np.array(p, dtype=np.float64)) for k, p in enumerate(case['regions'])]
     bls = [np.array(l['baseline'], dtype=np.float64) for l in case['lines']]
     hs = [l['heights'] for l in case['lines']]
     tls = [Hh.baseline_to_textline(b, h) for b, h in zip(bls, hs)]
@@ -152,9 +188,10 @@ def check(case, mon, ctx):
         P = sg.Polygon(r.polygon)
         valid = P.is_valid
         Pv = P if valid else P.convex_hull
+        Preal = P if valid else make_valid(P)          # what the outline really encloses (a bow-tie = its two triangles)
         placed = {}
         for l in r.lines:
-            k = int(l.id.split('-l')[1]) - 1
+            k = int(l.id[len(r.id):].split('-l')[1]) - 1
             if not l.id.startswith(r.id + '-l') or k in placed:
                 mon.violation('line-ids-distinct', {'region': r.id, 'line': l.id})
             placed[k] = l
@@ -166,8 +203,9 @@ def check(case, mon, ctx):
             w = {'region': r.id, 'region_valid': valid, 'line': li, 'baseline': b}
             try:
                 touches = P.intersects(B) if valid else Pv.intersects(B)
+                really_touches = Preal.buffer(1e-6).intersects(B)
             except Exception:
-                touches = None
+                touches = really_touches = None
             inside = Pv.contains(B) and valid
             inter = Pv.intersection(B)
             if inter.geom_type == 'MultiLineString':
@@ -189,10 +227,15 @@ def check(case, mon, ctx):
                     mon.violation('heights-kept', dict(w, got=l.heights))
                 if touches is False:
                     mon.violation('non-touching-line-never-placed', w)
-                if valid and inter.geom_type == 'MultiLineString':
-                    longest = max(g.length for g in inter.geoms)
+                elif really_touches is False:
+                    mon.count('pocket_lines_checked')
+                    mon.violation('non-touching-line-never-placed', dict(w, note='the line lies between the self-touching outline and its convex hull and touches nothing the outline encloses'))
+                if valid and inter.geom_type in ('MultiLineString', 'LineString'):
+                    longest = max(g.length for g in inter.geoms) if inter.geom_type == 'MultiLineString' else inter.length
                     if abs(lb.length - longest) > 1e-6:
                         mon.violation('keeps-longest-piece', dict(w, placed_length=lb.length, longest=longest))
+                if case['lines'][li].get('kind') == 'bent':
+                    mon.count('bent_lines_placed')
                 if inside and B.length > 2:
                     mon.count('inside_lines_placed_unchanged')
                     if l.baseline.shape != b.shape or np.abs(l.baseline - b).max() > 1e-6:
@@ -203,11 +246,30 @@ def check(case, mon, ctx):
             else:
                 if touches is False:
                     mon.count('not_touching_pairs')
+                elif really_touches is False:
+                    mon.count('pocket_lines_checked')
+                if valid and inter.geom_type in ('MultiLineString', 'LineString'):
+                    longest = max(g.length for g in inter.geoms) if inter.geom_type == 'MultiLineString' else inter.length
+                    T = sg.Polygon(t)
+                    if longest > 2.001 and T.is_valid and P.intersection(T).geom_type in ('Polygon', 'MultiPolygon') and P.intersection(T).area > 1e-6:
+                        mon.violation('entering-line-keeps-its-longest-piece', dict(w, longest_piece=longest, note='the line enters the region but nothing was placed',
+                                                                                  kind=case['lines'][li].get('kind')))
+                if valid and inter.geom_type in ('MultiLineString', 'LineString') and case['lines'][li].get('kind') == 'bent':
+                    mon.count('bent_lines_not_placed')
                 if inside and B.length > 2:
                     T = sg.Polygon(t)
                     mon.violation('line-inside-region-always-placed', dict(w, baseline_length=B.length, outline_valid=T.is_valid))
     if nontriv:
         mon.mark_nontrivial()
+    # the multi-orientation extractor distributes the lines of each rotated pass to the same regions with an id suffix: all ids stay distinct
+    for suffix in ('_1', '_3'):
+        with contextlib.redirect_stdout(io.StringIO()):
+            out = Hh.assign_lines_to_regions([b.copy() for b in bls], hs, [t.copy() for t in tls], out, id_suffix=suffix)
+    mon.count('suffixed_passes')
+    ids = [l.id for r in out for l in r.lines]
+    dup = sorted({x for x in ids if ids.count(x) > 1})
+    if dup:
+        mon.violation('line-ids-distinct', {'after': 'three passes over the same regions with id suffixes "", "_1", "_3"', 'region_ids': [r.id for r in out], 'duplicate_ids': dup})
 
 
 def get_extractor(ctx, combo):
@@ -249,7 +311,9 @@ def check_extractor(case, mon, ctx):
     ctx.combos_seen.add(tuple(combo))
     img = ctx.stubs.stroke_image(case['hlines'], case['vlines'])
     pl = L.PageLayout(id='p', page_size=(600, 800))
-    pl.regions = [L.RegionLayout('r%d' % (k + 1), np.array(p, dtype=np.float64)) for k, p in enumerate(case['regions'])]
+    # given regions are named as an earlier stage may have named them: plainly, or as a multi-orientation region stage does (r000, r000_1)
+    names = [['r1', 'r2'], ['r000_1', 'r000'], ['r000', 'r000_1'], ['r000_3', 'r000']][(len(case['hlines']) + len(case['vlines'])) % 4]
+    pl.regions = [L.RegionLayout(names[k], np.array(p, dtype=np.float64)) for k, p in enumerate(case['regions'])]
     dr, dl, ml, mo = combo
     w = {'DETECT_REGIONS': dr, 'DETECT_LINES': dl, 'MERGE_LINES': ml, 'MULTI_ORIENTATION': mo}
     try:
@@ -285,8 +349,10 @@ def check_simple(case, mon, ctx):
     pl = L.PageLayout(id='p', page_size=(400, 600))
     if case['seed'] % 2:
         # a U-shaped region whose text rows cross the notch (two columns in the arms of the U), and a plain one
-        pl.regions = [L.RegionLayout('r1', np.array([[10, 10], [250, 10], [250, 300], [350, 300], [350, 10], [590, 10], [590, 390], [10, 390]])),
-                      L.RegionLayout('r2', np.array([[260, 10], [340, 10], [340, 290], [260, 290]]))]
+        # the notch ends between the top and the baseline of one text row: that row's baseline runs below the notch, its outline would reach into it
+        ny = 300 if case['seed'] % 4 == 1 else 50 + 60 * int(rng.integers(0, case['n_rows'])) + int(rng.integers(3, 12))
+        pl.regions = [L.RegionLayout('r1', np.array([[10, 10], [250, 10], [250, ny], [350, ny], [350, 10], [590, 10], [590, 390], [10, 390]])),
+                      L.RegionLayout('r2', np.array([[260, 10], [340, 10], [340, ny - 10], [260, ny - 10]]))]
         img[:, 250:350] = 255
         mon.count('simple_extractor_concave_pages')
     else:
